@@ -161,3 +161,72 @@ def _(v):
     prove_pure(v, "binary_rev", I.binary_rev, lambda: ((t()(), 0.3, 0.2, 0.1, 2.0, 0.5), {"backend": np}))
     prove_pure(v, "unary_irrev_cstr", I.unary_irrev_cstr, lambda: ((t()(), 0.3, 1.5, 0.2, 2.5, 0.4, 0.7), {"backend": np}))
     prove_pure(v, "binary_irrev_cstr", I.binary_irrev_cstr, lambda: ((t()(), 0.3, 1.5, 0.2, 2.5, 0.4, 0.7), {"n": 2, "backend": np}))
+
+
+@harness("C17", "second_opinion_from_sympy", functions=[MOD + ":dimerization_irrev", MOD + ":pseudo_irrev", MOD + ":pseudo_rev", MOD + ":binary_irrev", MOD + ":binary_rev", MOD + ":unary_irrev_cstr",
+                                                       MOD + ":binary_irrev_cstr"], kind="data")
+def _(v):
+    """an independent decision of the same two clauses: the closed forms are evaluated by the REAL code with sympy symbols (the documented symbolic
+    use), differentiated by sympy (not by this verifier's own derivative) and the residual of the rate equations of chempy's OWN mass-action
+    model (ReactionSystem.rates, cstr feed terms included) is evaluated with 60 significant digits at seeded parameter points; start values likewise"""
+    import random
+    import sympy
+    from chempy.kinetics import integrated as I
+    from chempy.chemistry import Reaction, Substance
+    from chempy.reactionsystem import ReactionSystem
+    t = sympy.Symbol("t", positive=True)
+    rng = random.Random(17)
+
+    def rates_of(text_rxns, conc, extra=None, cstr=None):
+        rs = ReactionSystem([Reaction(r, p, k, checks=()) for r, p, k in text_rxns], [Substance(s) for s in sorted(conc)], checks=())
+        return rs.rates(dict(conc, **(extra or {})), cstr_fr_fc=cstr)
+
+    def check(label, build, npoints=6):
+        worst, bad = 0, []
+        for _ in range(npoints):
+            expr_res, expr_init, params = build()
+            for e in expr_res:
+                for tt in (sympy.Rational(1, 7), sympy.Rational(13, 10), 4):
+                    val = abs(sympy.N(e.subs(t, tt), 60))
+                    scale = 1 + max(abs(sympy.N(x, 30)) for x in params)
+                    if val > sympy.Float("1e-40") * scale:
+                        bad.append((str(params)[:80], str(tt), str(val)[:12]))
+            for e in expr_init:
+                if abs(sympy.N(e, 60)) > sympy.Float("1e-50"):
+                    bad.append(("init", str(params)[:80], str(sympy.N(e, 8))))
+        v.prove(label + ".rate_equation_and_start_value", not bad, detail=repr(bad[:3]))
+    R = lambda lo, hi: sympy.Rational(rng.randint(int(lo * 1000), int(hi * 1000)), 1000)
+
+    def dimer():
+        kf, C0 = R(0.01, 8), R(0.01, 8)
+        C = I.dimerization_irrev(t, kf, C0)
+        rate = rates_of([({"A": 2}, {"B": 1}, kf)], {"A": C, "B": 0})["A"]
+        return [sympy.diff(C, t) - rate], [C.subs(t, 0) - C0], (kf, C0)
+    check("dimerization_irrev", dimer)
+
+    def binary(fn, rev, pseudo=False):
+        def build():
+            kf, kb, P0, Z = R(0.01, 8), R(0.01, 8), R(0, 3), R(0.1, 4)
+            Y = Z + R(0.1, 4)                                  # documented: `major` is the excess reactant
+            args = (kf, kb, P0, Y, Z) if rev else (kf, P0, Y, Z)
+            x = fn(t, *args, backend=sympy)
+            yy, zz = (Y if pseudo else Y - (x - P0)), Z - (x - P0)      # pseudo first order: the excess reactant is not consumed
+            rxns = [({"Y": 1, "Z": 1}, {"P": 1}, kf)] + ([({"P": 1}, {"Y": 1, "Z": 1}, kb)] if rev else [])
+            rate = rates_of(rxns, {"Y": yy, "Z": zz, "P": x})["P"]
+            return [sympy.diff(x, t) - rate], [x.subs(t, 0) - P0], args
+        return build
+    check("pseudo_irrev", binary(I.pseudo_irrev, False, pseudo=True))
+    check("pseudo_rev", binary(I.pseudo_rev, True, pseudo=True))
+    check("binary_irrev", binary(I.binary_irrev, False))
+    check("binary_rev", binary(I.binary_rev, True))
+
+    def cstr(fn, order, n=1):
+        def build():
+            k, r, p, fr, fp, fv = R(0.01, 4), R(0.01, 4), R(0, 4), R(0.01, 4), R(0, 4), R(0.01, 2)
+            A, B = fn(t, k, r, p, fr, fp, fv, backend=sympy) if order == 1 else fn(t, k, r, p, fr, fp, fv, n, backend=sympy)
+            rates = rates_of([({"A": order}, {"B": n}, k)], {"A": A, "B": B}, {"fv": fv, "fcA": fr, "fcB": fp}, cstr=("fv", {"A": "fcA", "B": "fcB"}))
+            return [sympy.diff(A, t) - rates["A"], sympy.diff(B, t) - rates["B"]], [A.subs(t, 0) - r, B.subs(t, 0) - p], (k, r, p, fr, fp, fv)
+        return build
+    check("unary_irrev_cstr", cstr(I.unary_irrev_cstr, 1))
+    check("binary_irrev_cstr", cstr(I.binary_irrev_cstr, 2, 1))
+    check("binary_irrev_cstr_n3", cstr(I.binary_irrev_cstr, 2, 3), npoints=3)
